@@ -25,7 +25,7 @@ theorem refract_correct {o : Ops K} (ho : OrderedLike o) (Lk : Nat) (hL : [Lk] â
     (env : Nat â†’ K) :
     ((lookup "refract" [Lk]).out j).eval o env =
       if o.le (o.lit 0 1) ((kE Lk).eval o env) then (refrLeaf Lk j).eval o env else o.lit 0 1 := by
-  have := Family.tree_poly_sound ho.toRingLike (all_ok f_refract (by simp [families])) rfl rfl (ks := [Lk]) hL (j := j) hj env
+  have := Family.tree_poly_sound ho.toRingLike (all_ok f_refract (by simp [families])) rfl rfl rfl (ks := [Lk]) hL (j := j) hj env
   exact this
 
 /-- **no NaN source on total internal reflection**: on the path the code takes, every `sqrt` argument
@@ -43,7 +43,7 @@ theorem faceforward_correct {o : Ops K} (ho : OrderedLike o) (Lk : Nat) (hL : [L
     (env : Nat â†’ K) :
     ((lookup "faceforward" [Lk]).out j).eval o env =
       if (dotE Lk (vv (2 * Lk)) (vv Lk)).eval o env < 0 then env j else - env j := by
-  have := Family.tree_poly_sound ho.toRingLike (all_ok f_faceforward (by simp [families])) rfl rfl (ks := [Lk]) hL (j := j) hj env
+  have := Family.tree_poly_sound ho.toRingLike (all_ok f_faceforward (by simp [families])) rfl rfl rfl (ks := [Lk]) hL (j := j) hj env
   rw [show lookup "faceforward" [Lk] = lookup f_faceforward.unit [Lk] from rfl, this]
   simp only [f_faceforward, Tree.eval, C.eval, E.eval, ho.lt, ho.lit, ho.neg, L, k0, List.getD_cons_zero, zero, vv,
     v, Nat.zero_add, Int.cast_zero, decide_eq_true_eq]
